@@ -22,5 +22,7 @@ def run(col, configs, tier):
         guarded(col, X.rule_jeaiii, facts)
         guarded(col, X.rule_chunk_padding, facts)
         guarded(col, X.rule_u128_count_chunks, facts)
+        guarded(col, X.rule_index_widening, facts)
+        guarded(col, X.rule_naive_count_stages, facts)
         from rules import c08
         guarded(col, c08.rule_mask_shift, facts)
